@@ -65,7 +65,7 @@ class Check:
             'noise seed); non-trivial = a recursive filter carried state over at least 10 samples, or a fault fired, or a canonical pose was visited')
     assumptions = [
         'inputs are well-formed by construction (finite, non-zero acc/mag rows at least 2 degrees from parallel), so any exception counts as a violation',
-        'single-frame estimators (Tilt, SAAM, FAMC, FQA, QUEST, Davenport, FLAE, OLEQ, TRIAD, AQUA algebraic) are pure per-sample functions: for them the simulator is only an input source',
+        'single-frame estimators (Tilt, SAAM, FAMC, FQA, QUEST, Davenport, FLAE, OLEQ, TRIAD, AQUA algebraic) are pure per-sample functions: for them the simulator is only an input source; the enumerated grid of exact poses x dips x {clean, glitched accelerometer, glitched magnetometer} is plain input enumeration',
         'unit-norm / orthogonality tolerance 1e-9',
         'numpy.linalg.LinAlgError is counted as a crash although it subclasses ValueError',
     ]
@@ -75,13 +75,46 @@ class Check:
     }
 
     def runs(self, tier):
-        return 5000 if tier == 'quick' else 60000
+        return 4000 if tier == 'quick' else 60000
 
     def wall_cap(self, tier):
         return 700 if tier == 'quick' else 6600
 
     def determinism_sample(self, tier):
         return 4 if tier == 'quick' else 48
+
+    def enumerated(self, tier):
+        """Seed-independent grid of exact poses: every canonical pose (also turned to headings 90/180/270) x 5 dips x
+        {clean, accelerometer glitched, magnetometer glitched}, seen by every single-frame estimator and variant.
+        This is input enumeration (said so in the evidence): it keeps the singular families of the closed-form
+        estimators in view on every run instead of leaving them to the luck of a seed."""
+        import math
+        poses = W.canonical_poses()
+        extra = []
+        for name, q in poses:
+            if name.startswith(('pitch_only', 'roll_only', 'x_', 'y_', 'pitch180')) and (tier != 'quick' or name in ('x_up', 'x_down', 'y_up', 'pitch180', 'pitch_only_23', 'roll_only_41')):
+                for h in (90, 180, 270):
+                    extra.append((f'{name}@h{h}', qm.qmul(qm.axang([0, 0, 1], math.radians(h)), q)))
+        poses = poses + extra
+        dips = [-60.0, 0.0, 45.0, 66.0, 80.0] if tier == 'quick' else [-80.0, -60.0, -30.0, 0.0, 25.0, 45.0, 60.0, 66.0, 80.0]
+        cons = []
+        for k, vs in (('oleq', [{'frame': 'NED'}, {'frame': 'ENU'}]), ('flae', [{'method': 'symbolic'}, {'method': 'eig'}, {'method': 'newton'}]),
+                      ('tilt', [{'representation': 'quaternion'}, {'representation': 'rotmat'}]), ('tilt_acc', [{'representation': 'angles'}]),
+                      ('saam', [{}]), ('famc', [{}]), ('fqa', [{}]), ('quest', [{}, {'weights': [1.2, 0.6]}]), ('davenport', [{}]),
+                      ('triad', [{'frame': 'NED', 'representation': 'quaternion'}, {'frame': 'ENU', 'representation': 'rotmat'}]), ('aqua_alg', [{}])):
+            for v in vs:
+                cons.append({'kind': k, 'params': dict(v)})
+        out = []
+        for (name, q) in poses:
+            for dip in dips:
+                for pert in ('clean', 'acc', 'mag'):
+                    world = {'dt': 0.01, 'q0': [float(x) for x in q], 'segments': [{'t': 'pose', 'q': [float(x) for x in q], 'len': 2, 'name': name}],
+                             'g': 9.81, 'mscale': 50.0, 'dip': dip, 'noise': {'acc': 0.0, 'mag': 0.0, 'gyr': 0.0}, 'noise_seed': 1, 'gyr_floor': 0.0, 'faults': []}
+                    if pert != 'clean':
+                        vec = [3.1, -7.7, 4.9] if pert == 'acc' else [21.0, 13.0, -37.0]
+                        world['faults'] = [{'kind': 'glitch', 'sensor': pert, 'start': 1, 'len': 1, 'vec': vec}]
+                    out.append({'world': world, 'consumers': cons, 'sched_seed': 1, 'lag_bound': 1, 'rng_seed': 1})
+        return out
 
     def gen(self, seed, tier):
         rnd = random.Random(f'C03/{seed}')
